@@ -138,3 +138,8 @@ REGISTRY.update({
     "C34": _mc("complete option product (3 x 2^11 `date` argvs, 56 `preprocess` argvs) executed in-process through cli.tsdate_main with a recording wrapper around the API entry points; expected validity derived from the API contracts",
                "Every presence/absence combination of the 11 `date` options for each method, and every combination of preprocess options incl. boolean values True/False/0 and the --trim_telomeres alias: each given option reaches the API with the value given, the file written equals the API result, and invalid combinations end with a non-zero exit and no output file."),
 })
+
+REGISTRY.update({
+    "C31": _mc("explicit-state enumeration of inputs x site layouts (incl. sites with nested/parallel recurrent mutations) x node ages from real dating and from the complete product of synthetic mn vectors (every ancestor/descendant inversion) x option product; re-implementation oracle; historical-sample patterns for SampleData",
+               "Every bounded ARG x {one mutation per site, all mutations of a locus on one site} + above-root mutations + a monomorphic site, aged by variational_gamma / inside_outside output and by all {0.5,1,2,3}^k mn vectors (k<=4) x node_selection (4) x min_time (3) x unconstrained: site times equal the documented definition; add_sampledata_times on tsinfer SampleData with every single and pair of historical samples equals max(estimate, oldest carrier)."),
+})
